@@ -100,7 +100,7 @@ META = {
   explanation="Real cminx.document / document_single_file on a virtual file system against the oracle spec_tree: set of written paths == pages of processed files + one index.rst per processed "
               "directory, each once, page text = what the Documenter stub yields for that file. Symbolic: matcher verdict per entry and for the input path, listing order per directory, "
               "(presence), recursive / auto-exclusion as shards, output placement, prefix.",
-  assumptions=["OS contract: a finite tree that does not change during the run, listed in arbitrary order; no symlinks, races, I/O errors",
+  assumptions=["OS contract: a finite tree that does not change during the run, listed in arbitrary order; no races, no I/O errors; symbolic links only in the shards that say so (the input path is a link to the tree; one link to a sibling directory inside the tree, followed or not)",
                "with auto-exclusion on, the input directory holds a non-excluded lower-case .cmake file and mixed-case extensions sit next to one (the property's quantifier)"],
   outside=["file and directory names are concrete (menus incl. dots, dashes, mixed case, 3 levels); symbolic names through posixpath do not terminate"], trusted=TRUSTED_CH),
  "C14": dict(
